@@ -415,6 +415,8 @@ def run(ctx):
     D.error_discipline(ctx, "R-C15.11", scope=lambda f: f.startswith(("journal::entry::", "<journal::", "journal::reader", "journal::batch_reader", "journal::writer::")))
 
     # ---- borrowed obligations (mechanisms owned by other properties that this property's verdict also rests on)
+    # a decoded record is replayed as the operation it encodes (tombstone kinds are not interchangeable)
+    ctx.borrow("C04", ["R-C04.1"], "R-C15.12")
     # items of a batch keep their journal order on replay (same bytes per key)
     ctx.borrow("C04", ["R-C04.8"], "R-C15.9")
     # damage handling: fatal only after a look
